@@ -144,6 +144,20 @@ def check_detector(cx: Cx, ob: Ob, cls: str, fn, side: set) -> None:
         ob.violate(fn.qualname, fn.where, f"the {cls} detector never reads `{f}`: clashes involving it go undetected", detail=f"unread:{f}")
     if side - read:
         return
+    for x, y, how, c in comps:
+        if how in ("_eq", "_in"):
+            kw = dict(c[3])
+            cs = kw.get("case_sensitive") or (c[2][2] if len(c[2]) > 2 else None)
+            if not is_const(cs, True):
+                ob.violate(
+                    fn.qualname,
+                    fn.where,
+                    f"the {cls} detector compares through {how}(..., case_sensitive={show(cs) if cs else '?'}): two records whose names differ only by case are reported as a clash, so a collection in which no name is claimed twice is rejected",
+                    witness="records with URI prefixes '.../obo/NCIT_' and '.../obo/ncit_' (as discover() legitimately learns them) cannot be put into one strict converter",
+                    detail="case-insensitive",
+                )
+        if op(c) == "cmp" and any(op(z) == "call" and callee_name(z) in ("casefold", "lower", "upper", "strip") for z in subterms(c)):
+            ob.violate(fn.qualname, fn.where, f"the {cls} detector compares transformed values (`{show(c)[:60]}`): distinct names are reported as a clash", detail="case-insensitive")
     mode, _, _, desc = _pair_mode(prov, s)
     if mode == "adjacent":
         ob.violate(fn.qualname, fn.where, f"the {cls} detector compares only adjacent records ({desc}); non-neighbouring clashes go undetected", detail="adjacent-pairs")
@@ -421,3 +435,17 @@ def d6(cx: Cx, ob: Ob) -> None:
             ob.violate(ctor.qualname, where(ctor, o[2]), f"{t[1][1].rsplit('.', 1)[-1]} is raised with `{show(a)[:70]}`, not with the full result of {want}(records)", detail=f"raise-arg:{want}")
     if n < 2:
         ob.undecide(f"only {n} duplicate-error raise(s) found in Converter.__init__")
+
+
+@obligation("C04-X8", "the Record model stores prefixes and URI prefixes verbatim: no pydantic string transformation (strip / case folding / length limits) in its model_config or field declarations", floor=1)
+def x8(cx: Cx, ob: Ob) -> None:
+    from ..rules import record_verbatim
+
+    record_verbatim(cx, ob)
+
+
+@obligation("C04-X10", "Converter.__init__ reads its (Iterable, possibly one-shot) `records` argument only through one materialising call (sorted/list) and keeps that fresh list - never the caller's list object, never sorted in place", floor=2)
+def x10(cx: Cx, ob: Ob) -> None:
+    from ..rules import constructor_owns_records
+
+    constructor_owns_records(cx, ob)
